@@ -101,6 +101,41 @@ func snapshotPrice(s *Snapshot, denom string) sdkmath.LegacyDec {
 }
 
 func CheckC05Chain(h *History, blk *BlockRecord) []Violation {
+	return poolValueCheck(h, blk, c05QuietTx, "C05/per-share-value-fell", "c05", "only joins/exits")
+}
+
+// c03SwapTx: the block may also hold swaps (every form). Chain-level part of C03: a swap never pays out
+// more than the curve / the oracle value allows, so the same per-share value cannot fall over a block of
+// swaps either – whatever the order in which the end-blocker executes them and whatever state (live pool,
+// per-block snapshot) each one was priced from.
+func c03SwapTx(tx TxRecord) bool {
+	switch tx.Msg.(type) {
+	case *ammtypes.MsgSwapExactAmountIn, *ammtypes.MsgSwapExactAmountOut, *ammtypes.MsgSwapByDenom:
+		return true
+	}
+	return c05QuietTx(tx)
+}
+
+func CheckC03Chain(h *History, blk *BlockRecord) []Violation {
+	swaps := 0
+	for _, tx := range blk.Txs {
+		if tx.Code == 0 {
+			switch tx.Msg.(type) {
+			case *ammtypes.MsgSwapExactAmountIn, *ammtypes.MsgSwapExactAmountOut, *ammtypes.MsgSwapByDenom:
+				swaps++
+			}
+		}
+	}
+	if swaps == 0 {
+		return nil // join/exit-only blocks are C05's
+	}
+	if swaps >= 2 {
+		h.Labels["c03-blocks-with>=2-swaps"]++
+	}
+	return poolValueCheck(h, blk, c03SwapTx, "C03/per-share-value-fell-by-swaps", "c03", "only swaps, joins and exits")
+}
+
+func poolValueCheck(h *History, blk *BlockRecord, quiet func(TxRecord) bool, sig, lbl, what string) []Violation {
 	if h.Prev == nil {
 		return nil
 	}
@@ -109,13 +144,13 @@ func CheckC05Chain(h *History, blk *BlockRecord) []Violation {
 		if tx.Code != 0 {
 			continue
 		}
-		if !c05QuietTx(tx) {
-			h.Labels["c05-block-not-quiet"]++
+		if !quiet(tx) {
+			h.Labels[lbl+"-block-not-quiet"]++
 			return nil
 		}
 		nOps++
 	}
-	if h.Prev.SwapInQ+h.Prev.SwapOutQ+h.Cur.SwapInQ+h.Cur.SwapOutQ > 0 {
+	if lbl == "c05" && h.Prev.SwapInQ+h.Prev.SwapOutQ+h.Cur.SwapInQ+h.Cur.SwapOutQ > 0 {
 		return nil
 	}
 	var out []Violation
@@ -125,12 +160,11 @@ func CheckC05Chain(h *History, blk *BlockRecord) []Violation {
 		if q == nil {
 			continue
 		}
-		if q.TotalShares.Amount.Equal(p.TotalShares.Amount) {
-			continue // nobody joined or left
+		if q.TotalShares.Amount.Equal(p.TotalShares.Amount) && poolReserves(q) == poolReserves(p) {
+			continue // nothing happened to this pool
 		}
-		exposed := perpPoolOf(h.Prev, p.PoolId) || perpPoolOf(h.Cur, p.PoolId)
-		if exposed {
-			h.Labels["c05-pool-has-perp-exposure"]++
+		if perpPoolOf(h.Prev, p.PoolId) || perpPoolOf(h.Cur, p.PoolId) {
+			h.Labels[lbl+"-pool-has-perp-exposure"]++
 			continue
 		}
 		// oracle prices of the pool's assets unchanged
@@ -150,13 +184,12 @@ func CheckC05Chain(h *History, blk *BlockRecord) []Violation {
 		if !ok1 || !ok2 {
 			continue
 		}
-		h.Labels["c05-judged-pool-blocks"]++
+		h.Labels[lbl+"-judged-pool-blocks"]++
 		if p.TotalShares.Amount.LT(q.TotalShares.Amount) {
-			h.Labels["c05-judged-after-exit"]++
+			h.Labels[lbl+"-judged-after-exit"]++
 		}
-		// allowance: every join/exit (txs plus what the leveragelp sweep may have closed) may round by
-		// one base unit of each asset; single-asset joins of weighted pools by the power
-		// approximation's 1e-8
+		// allowance: every operation (txs plus what the leveragelp sweep may have closed; a 2-hop swap touches
+		// two pools once each) may round by one base unit of each asset; the power approximation by 1e-8
 		n := float64(nOps + 3)
 		allow := n * (math.Max(before.unit, after.unit) + 1e-8)
 		var drop float64
@@ -170,8 +203,8 @@ func CheckC05Chain(h *History, blk *BlockRecord) []Violation {
 			if before.oracle {
 				kind = "oracle (reserves at oracle prices per share)"
 			}
-			out = append(out, Violation{Sig: "C05/per-share-value-fell", Detail: fmt.Sprintf("pool %d %s: value per share fell by a fraction %.3e (allowed %.3e) in a block with only joins/exits at unchanged prices; shares %s -> %s, reserves %s -> %s (height %d; %s)",
-				p.PoolId, kind, drop, allow, q.TotalShares.Amount, p.TotalShares.Amount, poolReserves(q), poolReserves(p), h.Cur.Height, blockSummary(blk))})
+			out = append(out, Violation{Sig: sig, Detail: fmt.Sprintf("pool %d %s: value per share fell by a fraction %.3e (allowed %.3e) in a block with %s at unchanged prices; shares %s -> %s, reserves %s -> %s (height %d; %s)",
+				p.PoolId, kind, drop, allow, what, q.TotalShares.Amount, p.TotalShares.Amount, poolReserves(q), poolReserves(p), h.Cur.Height, blockSummary(blk))})
 		}
 	}
 	return out
